@@ -15,7 +15,10 @@ RULE = ('Histories as in C01 (all modes); for a generated subset of the jobs '
         'the same snapshot once per (push index k, third-party action in '
         '{create a new branch with a new commit, push a commit to a PR '
         'source branch, force-push a PR source branch}) with the action '
-        'executed immediately before push k (schedule placement owned by '
+        'executed immediately before push k (plus, for delete-branch jobs, '
+        'a racing tag with the archive-tag name; plus one run per ref the '
+        'job updates with that single ref refused by the remote) (schedule '
+        'placement owned by '
         'the harness through the subprocess module seen by '
         'bert_e.lib.simplecmd). Oracle on the ref journal of the remote '
         '(reference-transaction hook, actor = Bert-E): destination updates '
@@ -34,6 +37,8 @@ ACTIONS = ('new_branch', 'push_src', 'force_src')
 
 class Placed(M.Monitor):
     def after_job(self, hist, res, step):
+        if step.get('op') == 'rejected':
+            hist.count('rejected_ref_runs')
         if step.get('op') == 'placed':
             hist.count('placed_runs')
             seen_third = False
@@ -59,6 +64,7 @@ def monitors():
 
 def body_factory(tier, known):
     max_jobs = 3 if tier == 'quick' else 8
+    max_rejects = 3 if tier == 'quick' else 100
 
     def body(data, hist):
         n = data.draw(st.integers(8, 26), label='nsteps')
@@ -90,6 +96,25 @@ def body_factory(tier, known):
                                     act['pr'] = pr
                                 hist.apply({'op': 'placed', 'job': step,
                                             'push': k, 'action': act})
+                            if step.get('kind') == 'delete_branch':
+                                # a racing tag with the archive-tag name
+                                ver = step['args']['branch'].split('/')[-1]
+                                hist.apply({'op': 'placed', 'job': step,
+                                            'push': k, 'action': {
+                                                'kind': 'new_tag',
+                                                'name': ver}})
+                        # the remote refuses one ref of the job (branch or
+                        # tag protection): nothing foreign may be lost either
+                        refs_ = sorted(set(info['moved']))
+                        if len(refs_) > max_rejects:
+                            idx = data.draw(st.lists(
+                                st.integers(0, len(refs_) - 1),
+                                min_size=max_rejects, max_size=max_rejects,
+                                unique=True), label='rej')
+                            refs_ = [refs_[i] for i in sorted(idx)]
+                        for r in refs_:
+                            hist.apply({'op': 'rejected', 'job': step,
+                                        'ref': r})
                 hist.apply(step)
                 if step['op'] == 'admin':
                     hist.apply({'op': 'drain'})
